@@ -714,6 +714,9 @@ func (w *World) processRepoPackage(p *packages.Package, imp types.Importer) erro
 			continue
 		}
 		parts := strings.SplitN(f.Obligation, ".ensures.", 2)
+		if len(parts) != 2 && strings.HasSuffix(f.Obligation, ".ensures") {
+			parts = []string{strings.TrimSuffix(f.Obligation, ".ensures"), ""}
+		}
 		if len(parts) != 2 {
 			parts = strings.SplitN(f.Obligation, ".nopanic.", 2)
 			if len(parts) != 2 {
@@ -739,7 +742,7 @@ func (w *World) processRepoPackage(p *packages.Package, imp types.Importer) erro
 		for i := 0; i < sig.Params().Len(); i++ {
 			ps = append(ps, nm(sig.Params().At(i), i, "param")+" "+types.TypeString(sig.Params().At(i).Type(), qual))
 		}
-		if strings.Contains(f.Obligation, ".ensures.") {
+		if strings.Contains(f.Obligation, ".ensures") {
 			for i := 0; i < sig.Results().Len(); i++ {
 				ps = append(ps, nm(sig.Results().At(i), i, "result")+" "+types.TypeString(sig.Results().At(i).Type(), qual))
 			}
